@@ -44,4 +44,29 @@ CLAIMS = {
         note='indent_text() and brace_cleanup(), which choose the column, are not encodable within reach (4 600-line function, frame stack, '
              '~150 options): that part of C18 is not decided. Bounds as OUT-COL with empty prefix.',
         design_ref='DESIGN.md section 4, C18'),
+    'C07': dict(
+        text='Bounded model checking of the tokenizer side of disabled regions (real parse_ignored with parse_off_newlines, parse_newline, '
+             'parse_whitespace, UncText): for ALL lines of n code points inside a region (tabs, trailing blanks, non-ASCII, the marker text '
+             'itself included) the line becomes CT_IGNORED chunks whose text is exactly the consumed code points, never containing the '
+             'terminator, blank lines become one newline chunk with the exact count, and processing is not switched back on.',
+        note='Bounds: quick n<=4, thorough n<=6. Enable marker set to a one-character custom text so that short lines can contain it; lines '
+             'contain no "/" and no "#". Not decided: later passes skipping CT_IGNORED, regex markers, the output side.',
+        design_ref='DESIGN.md section 4, C07'),
+    'C02': dict(
+        text='Bounded model checking of the tokenizer steps that produce whitespace, newline and continuation chunks (real parse_whitespace, '
+             'parse_newline, parse_bs_newline over a TokenContext of n symbolic code points): every successful step makes progress, never '
+             'reads past the input, swallows only whitespace, consumes maximal runs, counts LF / CR LF / CR breaks once each, and a failed '
+             'step restores the position exactly; a backslash-newline becomes one CT_NL_CONT holding one backslash.',
+        note='Bounds: quick n<=4, thorough n<=6; all language sets, all option values the closure reads. Not decided: word/number/string/'
+             'punctuator steps (planned), the ~40 passes between tokenizer and output, the output loop.',
+        design_ref='DESIGN.md section 4, C02'),
+    'C06': dict(
+        text='Bounded model checking with CBMC memory-safety instrumentation (bounds, pointer, division) and unwinding assertions of the '
+             'encodable front of the pipeline on ARBITRARY input within the bound: the codec (decode_unicode and writers) and the '
+             'tokenizer steps parse_whitespace / parse_newline / parse_bs_newline / parse_ignored: no out-of-bounds access, no uncaught '
+             'exception, termination, progress on success and exact restore on failure.',
+        note='Bounds: byte strings n<=4 (codec), code point sequences n<=4 (tokenizer steps); thorough 8 / 6. Not decided: the parser passes '
+             'after tokenizing, indent_text, the convergence loops of uncrustify_file (a pre-existing hang on a Pawn "#define X" at end of '
+             'file reported by an independent reviewer lies there), wall-clock limits.',
+        design_ref='DESIGN.md section 4, C06'),
 }
